@@ -5,6 +5,7 @@ import (
 	"crypto/sha256"
 	"encoding/json"
 	"fmt"
+	"io"
 	"os"
 	"os/exec"
 	"path/filepath"
@@ -14,6 +15,7 @@ import (
 	"sync"
 
 	"github.com/goreleaser/nfpm/v2"
+	"github.com/goreleaser/nfpm/v2/deprecation"
 	_ "github.com/goreleaser/nfpm/v2/apk"
 	_ "github.com/goreleaser/nfpm/v2/arch"
 	_ "github.com/goreleaser/nfpm/v2/deb"
@@ -256,4 +258,5 @@ func oct(v int64) string { return "0" + strconv.FormatInt(v, 8) }
 func init() {
 	// the checks decide what the environment contains
 	os.Unsetenv("SOURCE_DATE_EPOCH")
+	deprecation.Noticer = io.Discard
 }
